@@ -11,6 +11,7 @@ fn scns(tier: &str) -> Vec<(RegistryScn, usize)> {
         (RegistryScn { group: "trios".into(), n_assets: 4 }, if quick { 3 } else { 4 }),
         (RegistryScn { group: "vaults".into(), n_assets: if quick { 3 } else { 4 } }, if quick { 6 } else { 8 }),
         (RegistryScn { group: "vaults-many".into(), n_assets: 13 }, if quick { 2 } else { 3 }),
+        (RegistryScn { group: "vaults-prefix".into(), n_assets: if quick { 4 } else { 6 } }, if quick { 4 } else { 5 }),
         (RegistryScn { group: "pools-ibc".into(), n_assets: 3 }, if quick { 3 } else { 4 }),
         (RegistryScn { group: "pools-long".into(), n_assets: 3 }, if quick { 3 } else { 4 }),
         (RegistryScn { group: "router".into(), n_assets: 4 }, if quick { 4 } else { 5 }),
